@@ -838,6 +838,14 @@ func (w *pfWorld) step(st *pfStep) M {
 			addLower(ss.Email)
 		}
 	}
+	// superseded copies a browser (or someone who saved one) may still present
+	for _, vs := range w.jarOld {
+		for _, v := range vs {
+			if ss, err := sessions.UnmarshalSession(v, w.cipher); err == nil {
+				addLower(ss.Email)
+			}
+		}
+	}
 	ora["lower"] = lower
 	if st.StateKind != "" || st.CsrfKind != "" {
 		// what http.Redirect makes of the recorded URI for this request path (library called directly)
